@@ -426,4 +426,12 @@ def _replay_detail_child(arg, report):
     verdict = scenario.check(ex)
     return {"diverged": False, "violations": verdict.get("violations", []),
             "outcome": verdict.get("outcome"),
-            "log": [(seq, now, who, event, repr(data)) for seq, now, who, event, data in ex.log]}
+            "log": [(seq, now, who, event, _safe_repr(data))
+                    for seq, now, who, event, data in ex.log]}
+
+
+def _safe_repr(obj):
+    try:
+        return repr(obj)
+    except Exception:  # noqa: B902 - scenarios use values that cannot be printed
+        return "<unprintable %s>" % type(obj).__name__
